@@ -114,7 +114,7 @@ pub fn info() -> PropInfo {
         id: "C20",
         run,
         replay,
-        rule: "cases = (value of a struct with two or three list fields, scalar fields and list items that themselves contain same-named lists; an order-preserving interleaving of its child elements, also of the children of nested items; event-buffer limits; Deserializer::from_str or from_reader over 3-byte pieces). The contiguous serialization is cut into child elements and re-assembled in the chosen interleaving. Without a limit from_str(interleaved) == value. With limit k: the result is that value or TooManyEvents; success is monotone in k; every k below L must fail, where L is the largest number of deserializer events of not-yet-consumed foreign siblings lying strictly between the first and last item of a list at the time that list is deserialized (they have to be skipped while the sequence is read); every k >= total number of child events must succeed. ALL interleavings for values with <= 7 children, random ones above; limits 1..total+2. Non-trivial = the interleaving is not the contiguous one and at least one foreign sibling lies between two items of a list.",
+        rule: "cases = (value of a struct with two or three list fields, scalar fields and list items that themselves contain same-named lists; an order-preserving interleaving of its child elements, also of the children of nested items; event-buffer limits; Deserializer::from_str or from_reader over 3-byte pieces). The contiguous serialization is cut into child elements and re-assembled in the chosen interleaving. Without a limit from_str(interleaved) == value. With limit k: the result is that value or TooManyEvents; success is monotone in k; every k below L must fail, where L is the largest number of deserializer events of not-yet-consumed foreign siblings lying strictly between the first and last item of a list at the time that list is deserialized (they have to be skipped while the sequence is read); every k >= total number of child events must succeed. ALL interleavings for values with <= 7 children, random ones above; limits 1..total+2. Non-trivial = the interleaving is not the contiguous one and at least one foreign sibling lies between two items of a list. A separate stage takes documents NOT produced by the serializer: optional children written with a prefixed nil attribute (true / 1 / false, with and without content, unprefixed look-alike) among the items of two lists, the nil namespace declared on an ancestor / on the struct's element / on the child / nowhere; every interleaving must give the value of the order in which the optional children come first (known finding F15 keyed on its exact signature).",
         assumptions: &["between L and the total event count either outcome is accepted (the exact threshold of the algorithm is not asserted)", "feature overlapped-lists (feature set full) only"],
         level: "exploration",
         variants: &["full"],
@@ -396,6 +396,152 @@ pub fn check(c: &Case) -> Verdict {
     v
 }
 
+
+// ---------------------------------------------------------------------------------------------
+// interleavings of documents that were not produced by the serializer: optional children written
+// with `xsi:nil` among the items of two lists. All interleavings must give the value of the order in
+// which the optional children come first (nothing is replayed before them).
+
+#[derive(Serialize, Deserialize, PartialEq, Debug, Clone)]
+pub struct OvNil {
+    #[serde(default)]
+    pub a: Vec<u32>,
+    #[serde(default)]
+    pub b: Vec<String>,
+    pub opt: Option<String>,
+    #[serde(default)]
+    pub n: Option<u16>,
+}
+#[derive(Serialize, Deserialize, PartialEq, Debug, Clone)]
+pub struct OvNilOuter {
+    pub root: OvNil,
+}
+
+pub const F15: &str = "F15-nil-attribute-of-a-replayed-element-resolved-in-the-scope-at-replay-time";
+
+#[derive(Clone, Debug, Serialize, Deserialize, PartialEq)]
+pub struct NilCase {
+    pub a: Vec<u32>,
+    pub b: Vec<String>,
+    /// `<opt>`: 0 absent, 1 `<opt/>`, 2 `<opt>t</opt>`, 3 nil + empty, 4 nil + content, 5 unprefixed nil, 6 nil="false", 7 nil="1"
+    pub opt: u8,
+    /// `<n>`: 0 absent, 1 `<n>7</n>`, 2 nil + empty, 3 nil + content
+    pub n: u8,
+    /// where the declaration of the nil namespace sits: 0 on an ancestor of the struct's element, 1 on
+    /// the struct's element, 2 on the child itself, 3 nowhere
+    pub decl: u8,
+    /// prefix used: 0 `xsi`, 1 `p`
+    pub prefix: u8,
+    pub order: Vec<u16>,
+    pub via_reader: bool,
+}
+
+const XSI: &str = "http://www.w3.org/2001/XMLSchema-instance";
+
+fn nil_units(c: &NilCase, strip_nil_after_first_item: Option<&[usize]>) -> (Vec<Unit>, String, String) {
+    let pre = ["xsi", "p"][c.prefix as usize % 2];
+    let decl = format!(" xmlns:{}=\"{}\"", pre, XSI);
+    let on_child = if c.decl % 4 == 2 { decl.as_str() } else { "" };
+    let mut units = vec![];
+    let opt = match c.opt % 8 {
+        0 => None,
+        1 => Some("<opt/>".to_string()),
+        2 => Some("<opt>t</opt>".to_string()),
+        3 => Some(format!("<opt{} {}:nil=\"true\"/>", on_child, pre)),
+        4 => Some(format!("<opt{} {}:nil=\"true\">x</opt>", on_child, pre)),
+        5 => Some("<opt nil=\"true\"/>".to_string()),
+        6 => Some(format!("<opt{} {}:nil=\"false\">y</opt>", on_child, pre)),
+        _ => Some(format!("<opt{} {}:nil=\"1\"/>", on_child, pre)),
+    };
+    let n = match c.n % 4 {
+        0 => None,
+        1 => Some("<n>7</n>".to_string()),
+        2 => Some(format!("<n{} {}:nil=\"true\"/>", on_child, pre)),
+        _ => Some(format!("<n{} {}:nil=\"true\">8</n>", on_child, pre)),
+    };
+    if let Some(t) = opt {
+        units.push(Unit { name: "opt".into(), text: t, events: 2 });
+    }
+    if let Some(t) = n {
+        units.push(Unit { name: "n".into(), text: t, events: 2 });
+    }
+    for x in &c.a {
+        units.push(Unit { name: "a".into(), text: format!("<a>{}</a>", x), events: 3 });
+    }
+    for x in &c.b {
+        units.push(Unit { name: "b".into(), text: format!("<b>{}</b>", quick_xml::escape::escape(x.as_str())), events: 3 });
+    }
+    if let Some(which) = strip_nil_after_first_item {
+        for &k in which {
+            let t = &mut units[k].text;
+            *t = t.replace(&format!(" {}:nil=\"true\"", pre), "").replace(&format!(" {}:nil=\"1\"", pre), "");
+        }
+    }
+    let open = format!("<o{}><root{}>", if c.decl % 4 == 0 { decl.as_str() } else { "" }, if c.decl % 4 == 1 { decl.as_str() } else { "" });
+    (units, open, "</root></o>".to_string())
+}
+
+#[cfg(feature = "full")]
+fn de_nil(xml: &str, via_reader: bool) -> Result<OvNilOuter, String> {
+    if via_reader {
+        let src = crate::sources::ChunkedBufRead::new(xml.as_bytes(), crate::sources::cuts_fixed(5, xml.len()));
+        quick_xml::de::from_reader(src).map_err(|e| e.to_string())
+    } else {
+        quick_xml::de::from_str(xml).map_err(|e| e.to_string())
+    }
+}
+#[cfg(not(feature = "full"))]
+fn de_nil(_xml: &str, _via_reader: bool) -> Result<OvNilOuter, String> {
+    Err("overlapped-lists is not enabled in this build".into())
+}
+
+pub fn check_nil(c: &NilCase) -> Verdict {
+    if !cfg!(feature = "full") {
+        return Verdict::excluded("feature-set-min");
+    }
+    if c.b.iter().any(|s| s.trim_matches(|ch| matches!(ch, ' ' | '\t' | '\n' | '\r')).is_empty()) {
+        // blank strings read back differently (trimming): not the subject here
+        return Verdict::excluded("blank-list-item");
+    }
+    let (units, open, close) = nil_units(c, None);
+    let canonical: String = units.iter().map(|u| u.text.as_str()).collect();
+    let canonical = format!("{}{}{}", open, canonical, close);
+    let order = interleave(&units, &mut c.order.iter().copied());
+    let doc: String = order.iter().map(|&k| units[k].text.as_str()).collect();
+    let doc = format!("{}{}{}", open, doc, close);
+    let want = de_nil(&canonical, c.via_reader);
+    let got = de_nil(&doc, c.via_reader);
+    // which optional children come after the first list item (they are replayed)?
+    let first_item = order.iter().position(|&k| units[k].name == "a" || units[k].name == "b");
+    let replayed: Vec<usize> = match first_item {
+        Some(f) => order.iter().enumerate().filter(|(pos, &k)| *pos > f && (units[k].name == "opt" || units[k].name == "n")).map(|(_, &k)| k).collect(),
+        None => vec![],
+    };
+    let nil_replayed = replayed.iter().any(|&k| units[k].text.contains(":nil=\"true\"") || units[k].text.contains(":nil=\"1\""));
+    let mut v = Verdict::pass(nil_replayed);
+    if nil_replayed {
+        v.classes.push("nil-child-after-the-first-list-item");
+    }
+    v.classes.push(["nil-namespace-declared-on-an-ancestor", "nil-namespace-declared-on-the-struct-element", "nil-namespace-declared-on-the-child", "nil-prefix-undeclared"][c.decl as usize % 4]);
+    if got == want {
+        return v;
+    }
+    // F15: the replayed children were judged as if they had no nil attribute, because the prefix is
+    // resolved against the scopes open at replay time (the declaring element has ended / the child's
+    // own declarations are not in scope)
+    if nil_replayed && matches!(c.decl % 4, 1 | 2) {
+        let (u2, _, _) = nil_units(c, Some(&replayed));
+        let stripped: String = u2.iter().map(|u| u.text.as_str()).collect();
+        let as_if = de_nil(&format!("{}{}{}", open, stripped, close), c.via_reader);
+        if got == as_if {
+            v.nontrivial = true;
+            v.known.push(F15);
+            return v;
+        }
+    }
+    Verdict::fail(format!("interleaving {:?} gives {:?}; with the optional children first ({:?}) the result is {:?}", doc, got, canonical, want))
+}
+
 fn item() -> impl Strategy<Value = OvItem> {
     (any::<u8>(), prop::collection::vec(any::<u8>(), 0..3), prop::collection::vec(elem_string(), 0..2)).prop_map(|(id, a, z)| OvItem { id, a, z })
 }
@@ -492,6 +638,9 @@ fn run(ctx: &Ctx) {
     let presets = || prop_oneof![3 => Just(vec![]), 1 => prop::collection::vec(prop_oneof![Just(0u16), 1u16..6], 1..3)];
     let strat = move || Box::new((value_strategy(4), prop::collection::vec(any::<u16>(), 0..16), prop::collection::vec(any::<u16>(), 0..12), prop::collection::vec(any::<u16>(), 0..6), any::<bool>(), presets()).prop_map(|(value, order, nested_order, limits, via_reader, presets)| Case { value, order, nested_order, limits, via_reader, presets }));
     ctx.run_proptest_with("random-interleavings", ctx.tier.pick(600_000, 5_000_000), strat, check);
+    // optional children written with xsi:nil among the list items (documents not produced by the serializer)
+    let nil = (prop::collection::vec(0u32..100, 0..4), prop::collection::vec(elem_string(), 0..3), 0u8..8, 0u8..4, 0u8..4, 0u8..2, prop::collection::vec(any::<u16>(), 0..10), any::<bool>()).prop_map(|(a, b, opt, n, decl, prefix, order, via_reader)| NilCase { a, b, opt, n, decl, prefix, order, via_reader });
+    ctx.run_proptest("nil-children-among-list-items", ctx.tier.pick(300_000, 3_000_000), nil, check_nil);
     // long lists: dozens to hundreds of skipped events are held while a later item of another list is read
     let long = move || {
         Box::new(
@@ -520,7 +669,11 @@ fn run(ctx: &Ctx) {
     ctx.run_proptest_with("long-lists-random-interleavings", ctx.tier.pick(40_000, 400_000), long, check);
 }
 
-fn replay(_stage: &str, case: &Value) -> Result<Verdict, String> {
+fn replay(stage: &str, case: &Value) -> Result<Verdict, String> {
+    if stage.starts_with("nil-children") {
+        let c: NilCase = serde_json::from_value(case.clone()).map_err(|e| e.to_string())?;
+        return Ok(check_nil(&c));
+    }
     let c: Case = serde_json::from_value(case.clone()).map_err(|e| e.to_string())?;
     Ok(check(&c))
 }
